@@ -372,8 +372,36 @@ func emptyImmutable(p *core.Prog, r *core.Report, pi *poolInfo) {
 	}
 	sortStrings(names)
 	r.Info["may_return_emptyResult"] = names
+	// EMPTY-ESCAPE: the shared empty result never leaves the package. A caller that receives it from an
+	// exported entry point owns what it was given: one AddErrors / Merge / Inc on it and every later
+	// "nothing to report" of the whole process carries the stray message.
+	nAPI := 0
+	for _, f := range p.Funcs {
+		if f.Parent() != nil || f.Object() == nil || !f.Object().Exported() || f.Signature.Results().Len() != 1 || !isRes(f.Signature.Results().At(0).Type()) {
+			continue
+		}
+		if rc := f.Signature.Recv(); rc != nil {
+			if n := core.NamedOf(rc.Type()); n == nil || !n.Obj().Exported() {
+				continue
+			}
+		}
+		nAPI++
+		if returnsEmpty[f] {
+			var where string
+			for _, b := range f.Blocks {
+				if ret, ok := b.Instrs[len(b.Instrs)-1].(*ssa.Return); ok && mayBeEmpty(ret.Results[0], map[ssa.Value]bool{}) {
+					where = p.Pos(ret.Pos())
+				}
+			}
+			r.Bad(rule, "escape:"+core.FuncName(f), p.Pos(f.Pos()), "the exported "+core.FuncName(f)+" can return the package's shared emptyResult itself ("+where+"): a caller adding an error or merging into the result it was given changes what every later empty validation reports, in every goroutine")
+		} else {
+			r.OK(rule, "escape:"+core.FuncName(f), p.Pos(f.Pos()), "never returns the shared empty result")
+		}
+	}
+	r.Count("exported_result_returners", nAPI)
+	r.Floor("exported_result_returners", 5)
 	r.Count("may_return_empty_funcs", len(names))
-	r.Floor("may_return_empty_funcs", 2)
+	r.Floor("may_return_empty_funcs", 1)
 	n, bad := 0, 0
 	for _, f := range p.Funcs {
 		fn := core.FuncName(f)
